@@ -185,6 +185,21 @@ func (x *Exec) detMapRange(s *ast.RangeStmt, rest []ast.Stmt) (bool, string) {
 		}
 	}
 	scan(s.Body.List)
+	if !appendOnly || target == "" {
+		// schema (b'): indexed fill  S[i] = key; i++  (every key lands in a distinct slot)
+		if len(s.Body.List) == 2 && keyName != "" {
+			as, ok1 := s.Body.List[0].(*ast.AssignStmt)
+			inc, ok2 := s.Body.List[1].(*ast.IncDecStmt)
+			if ok1 && ok2 && len(as.Lhs) == 1 && len(as.Rhs) == 1 && inc.Tok == token.INC {
+				if ie, ok := as.Lhs[0].(*ast.IndexExpr); ok {
+					if rid, ok := as.Rhs[0].(*ast.Ident); ok && rid.Name == keyName && types.ExprString(ie.Index) == types.ExprString(inc.X) {
+						target = types.ExprString(ie.X)
+						appendOnly = true
+					}
+				}
+			}
+		}
+	}
 	if appendOnly && target != "" {
 		// the next statement that mentions the slice must sort it by element order
 		for _, nx := range rest {
